@@ -103,6 +103,13 @@ def check_descent(out, x, g, lb, ub, xbar, where, tags, consistent_cp):
     if gen.pg_inf(x, g, lb, ub) > 0:
         out.count("descent_checked")
         sl = float(g @ (xbar - x))
+        # the slope is a sum of products g_i*(xbar_i - x_i) whose terms are known to eps*|g_i|*(|x_i| + |xbar_i|) each: a
+        # non-negative value below that resolution (an iterate converged to rounding in the free variables, a huge gradient on
+        # the fixed ones) is not a sign
+        floor = 64 * EPS * float(np.abs(g) @ (np.abs(x) + np.abs(xbar)))
+        if not (sl < 0) and sl <= floor:
+            out.count("slope_within_rounding_of_zero")
+            return
         if not (sl < 0):
             out.violate("not_a_descent_direction", f"{where}: g.(xbar-x)={sl!r} with non-zero projected gradient; x={x.tolist()} g={g.tolist()} xbar={np.asarray(xbar).tolist()}", **tags)
 
